@@ -380,12 +380,16 @@ def one_case(R, ir, Bn, null, wires, md, args, rets, outcome, is_ignored, repro,
                                 mech='args_differ:%s:%s' % (kind, md['style']))
         R.count('results_compared')
         if is_ignored:
-            def empty(x):
-                # nothing, or the response element present without content (decoded: an object none of whose members is set)
+            def empty(x, t=None):
+                # nothing, or the response element present without content (decoded: an object none of whose members is set -
+                # a member that declares a default reads as that default when it is absent)
                 if isinstance(x, dict):
-                    return all(empty(v) for k, v in x.items() if k != '__class__')
+                    ft = dict(gen.all_fields(ir, x.get('__class__', (t or {}).get('ref')))) if (x.get('__class__') or (t or {}).get('ref')) else {}
+                    return all(empty(v, ft.get(k)) for k, v in x.items() if k != '__class__')
+                if t is not None and 'prim' in t and 'default' in (t.get('facets') or {}) and x == t['facets']['default']:
+                    return True
                 return x is None or x == []
-            if not all(empty(x) for x in w[1]):
+            if not all(empty(x, t) for x, t in zip(w[1], md['returns'])):
                 R.violation('Ignored(...) return was sent over %s as %r' % (kind, w[1]), case, mech='ignored_sent_on_wire:%s' % kind)
             else:
                 R.nontrivial(md['style'], kind, 'ignored')
